@@ -62,7 +62,7 @@ func (x *fsx) fsEvents(s *an.PathState, evs []an.Event) []fsev {
 		case eff == "writer":
 			var h *an.Term
 			switch name {
-			case "io.WriteString", "io.Copy":
+			case "io.WriteString", "io.Copy", "fmt.Fprintf", "fmt.Fprint", "fmt.Fprintln":
 				h = e.Args[0]
 			case "(*bufio.Reader).WriteTo":
 				h = e.Args[1]
